@@ -12,37 +12,44 @@ COMMON_NOTE = ("Trusted: CPython executing the real function objects on the symb
 
 # id -> (category, technique, text, design_ref)
 CHECKS = {
-    "C01": ("other", "contracts on the real geometry/constructor functions: VCs by symbolic execution + z3; bounded oracle stand-in for readers",
-            "Geometry functions (prefix-sum starts, size check, flat<->(row,col) maps) are verified against contracts for all row-length vectors; the readers (iteration, tolist, astype, numpy round trip, save/load) are checked against the list of rows exhaustively inside stated bounds (bounded, not proved).", "11/C01"),
-    "C02": ("other", "contracts on the real indexing functions: VCs by symbolic execution + z3/cvc5; bounded list-of-rows oracle stand-in",
-            "Column-selection arithmetic (all 8 None/int slice kinds, symbolic bounds, steps and column step), integer column / element refusal, row selection on codes and the gather-index construction are proved for all inputs from the code as it is; the dispatch end-to-end is checked exhaustively against Python list indexing inside stated bounds (bounded).", "11/C02"),
-    "C03": ("other", "contracts (scatter frame, same address arithmetic as reads) + bounded list-of-rows assignment oracle",
-            "The address arithmetic shared with reads is proved (C02 families); the scatter frame of _set_data_range is proved; the dispatch by value kind and column-vector broadcast are checked exhaustively inside stated bounds (bounded).", "11/C03"),
-    "C04": ("other", "contracts on __array_ufunc__ (uninterpreted per-element ufunc) + bounded numpy-per-row oracle",
-            "Operand classification, shape guard, operand order and result assembly are proved with the ufunc uninterpreted; dtype and broadcasting are checked against numpy per row inside stated bounds (bounded).", "11/C04"),
-    "C05": ("other", "contract of _reduce against the assumed reduceat contract + bounded numpy-per-row oracle",
-            "_reduce (empty-row patch-up, trailing-empty-row trimming, reduceat index bounds) is proved against the assumed contract of ufunc.reduceat for all row-length vectors; wrappers and named reductions are bounded.", "11/C05"),
-    "C06": ("other", "contracts over the abstract rows for all geometry kinds + bounded derived-vs-fresh comparison",
-            "View composition (row subset of views, column step compounding, integer column/element on strided views) is proved; representation independence end-to-end is checked by comparing derived and freshly built arrays under every probe inside stated bounds (bounded).", "11/C06"),
-    "C07": ("other", "contracts (prefix-sum telescoping) + bounded numpy-per-row oracle",
-            "cumsum / accumulate are verified where the scan invariant is discharged; sort, unique, diff are bounded.", "11/C07"),
-    "C08": ("other", "contracts on structural functions + bounded oracle",
-            "like-constructors, concatenate(axis=0), where, ragged_slice window arithmetic are verified where discharged; the rest is bounded.", "11/C08"),
-    "C09": ("other", "contracts (dtype dispatch, col_counts) + bounded oracle with dtype extremes", "column aggregates: branch structure verified, values bounded.", "11/C09"),
-    "C10": ("other", "two-state contracts (frame + buffer dependence) + bounded differential histories",
-            "Reads are checked not to write to existing buffers; the history relation is checked differentially for all histories inside stated bounds; one known finding (lazy selection detached by read).", "11/C10"),
-    "C11": ("other", "contracts over the dictionary view + bounded dict oracle", "hash/mod arithmetic verified; lookup/assign/contains chains bounded against a Python dict.", "11/C11"),
-    "C12": ("other", "contracts + bounded collections.Counter oracle", "branch structure verified; totals bounded.", "11/C12"),
-    "C13": ("other", "QF_BV contracts on pack/unpack/getitem/sliding_window + bounded oracle",
-            "bit-vector VCs from the real functions for every b in {1,2,4,8,16,32} with symbolic length and positions; bounded cross-check.", "11/C13"),
-    "C14": ("other", "contracts (encoder canonical form, decoder) + bounded numpy oracle", "encoder canonical form verified; decoder and dtype matrix bounded.", "11/C14"),
-    "C15": ("other", "contracts (slice normalisation = CPython slice.indices, position lookup) + bounded numpy oracle",
-            "_get_slice normalisation proved equal to CPython's window for every None/negative/out-of-range combination; the rest bounded.", "11/C15"),
-    "C16": ("other", "contracts (operand order, boundaries) + bounded numpy oracle", "scalar/unary ufunc dispatch verified; merge and reductions bounded.", "11/C16"),
-    "C17": ("other", "contracts (operand order, shapes) + bounded numpy oracle", "mostly bounded, as planned in DESIGN.", "11/C17"),
-    "C18": ("other", "contracts on field-wise operations + bounded oracle", "field-wise map and equal-length check verified with abstract fields; bounded cross-check.", "11/C18"),
-    "C19": ("other", "re-generation of the C01/C02 obligations under int32 + bounded differential run",
-            "every geometry / indexing obligation is generated and discharged under both index widths; bounded stand-ins of C01-C09 are run under both and compared.", "11/C19"),
+    "C01": ("other", "contract-based deductive verification of the real functions (VCs by symbolic execution of the code objects, z3/cvc5) + bounded list-of-rows stand-in",
+            "Proved for every row-length vector: the prefix-sum geometry built by RaggedShape.__init__, size, ravel/unravel_multi_index, index_array (four inductions), the constructor's size check, len/shape/lengths/size/ravel/astype, to_numpy_array, from_tuple_shape. Bounded (exhaustive inside stated bounds, never counted as proved): iteration/tolist, dtype matrix, save/load round trip (np.savez/np.load assumed).", "0, 11/C01"),
+    "C02": ("other", "contract-based deductive verification (incl. an inductive scan invariant for build_indices) + bounded Python-list-indexing stand-in",
+            "Proved for all inputs: column-slice arithmetic for all 8 None/int kinds with symbolic bounds, steps and column step; integer column / element refusal; row selection on codes for int / slice / index array / mask; build_indices (scatter-then-scan, unbounded rows); get_shape / get_flat_indices preconditions; __getitem__ and _get_row_subset dispatch. The composition end-to-end is checked against Python list indexing inside stated bounds (bounded).", "0, 11/C02"),
+    "C03": ("other", "contract-based deductive verification (address arithmetic shared with reads, scatter frame, XOR-scan broadcast) + bounded list-assignment stand-in",
+            "Proved: everything of C02's address computation, _set_data_range (addressed cells get their values, every other cell unchanged, no other buffer written; index array / mask / slice), __setitem__ dispatch per value kind incl. refusal of mismatching ragged values, _raw_broadcast (column-vector values) with its wrappers. End-to-end assignment is bounded.", "0, 11/C03"),
+    "C04": ("other", "contract-based deductive verification with the ufunc as an uninterpreted function + bounded numpy-per-row stand-in",
+            "Proved for every ufunc at once: operand classification, operand order, shape guard (refusal iff row lengths differ), result assembly, dtype handed to the column broadcast, operands not written; _raw_broadcast proved. numpy's result dtype table and the dtype matrix are bounded.", "0, 11/C04"),
+    "C05": ("other", "contract of _reduce against the assumed reduceat contract + wrapper dispatch + bounded numpy-per-row stand-in",
+            "Proved for all row-length vectors: _reduce (trailing-empty-row trimming, reduceat index bounds, identity for empty rows, keepdims, axis=None) for representatives add / maximum / logical_and with the fold uninterpreted; the reduction wrapper and named reductions' dispatch. argmax/argmin, mean and dtype matrix are bounded.", "0, 11/C05"),
+    "C06": ("other", "contracts over the abstract rows for view receivers + materialisation frame + bounded derived-vs-fresh comparison",
+            "Proved: row subset of views, column-step compounding, integer column on strided views, materialisation (rows preserved, fresh buffer, source not written), lazy __getitem__ dispatch. Representation independence end-to-end (every probe on a newly derived array vs a fresh one) is bounded.", "0, 11/C06"),
+    "C07": ("other", "contracts (prefix-sum telescoping, shifted-prefix-sum lemma) + bounded numpy-per-row stand-in",
+            "Proved: cumsum and add.accumulate restart at every row (integer data as mathematical integers), diff plumbing (row r keeps max(L-n,0) differences of its own cells), index_array for sort. subtract/xor accumulate, sort, unique, diff values are bounded. One known finding (float accumulate).", "0, 11/C07"),
+    "C08": ("other", "contracts on structural functions + bounded stand-in",
+            "Proved: concatenate(axis=0) for 2 and 3 operands, zeros/ones/empty_like, where, nonzero, ragged_slice window arithmetic, unravel_multi_index, _raw_broadcast (mask broadcast). concatenate(axis=1), padded matrix, subset are bounded.", "0, 11/C08"),
+    "C09": ("other", "contracts (col_counts by three inductions, dtype dispatch) + bounded stand-in with dtype extremes",
+            "Proved: col_counts[j] = number of rows longer than j, for all row-length vectors; sum(axis=0) accumulator / dtype / index dispatch; get_column_values. Column-sum values and mean are bounded.", "0, 11/C09"),
+    "C10": ("other", "two-state frame contracts on read-only operations + bounded differential histories",
+            "Proved: 13 read-only operations on fresh receivers and 5 on lazily selected ones write no pre-existing buffer and preserve the rows; the buffer-dependence obligation on lazily selected receivers is refuted and is the recorded known finding. The history relation itself is bounded.", "0, 11/C10"),
+    "C11": ("other", "contracts around the bucket structure + bounded Python-dict stand-in",
+            "Proved: hash is a bucket index for every key sign, scalar-valued lookup/refusal, assignment order, contains scatter. The bucket lookup chain, constructor and histories are bounded. One known finding (8-bit key dtype with a wider modulus).", "0, 11/C11"),
+    "C12": ("other", "contract of Counter.count's state update + bounded collections.Counter stand-in",
+            "Proved: which samples are looked up and values' = values + hits per flat position in all four value states (bincount contract), ravel_multi_index, hash. The bucket comparison chain and totals end-to-end are bounded.", "0, 11/C12"),
+    "C13": ("proof", "contract-based deductive verification in QF_BV + linear integer arithmetic of the real pack / unpack / __getitem__ / sliding_window",
+            "Every clause of the property is a discharged obligation generated from the real functions: pack (digit j of register q = element qk+j, zero beyond n, input untouched), unpack, integer and list indexing, sliding_window for every window size, for every b in {1,2,4,8,16,32} and every in-register offset (the property's own finite domain), with length, register index, positions and window size symbolic. A bounded cross-check runs in addition.", "0, 11/C13"),
+    "C14": ("other", "contracts (encoder canonical form, decoder XOR scan with invariant, constructor) + bounded numpy stand-in",
+            "Proved: from_array gives canonical boundaries with adjacent runs different and run values taken at run starts; to_array decodes bit for bit (scan invariant); constructor invariants; slice windows. Canonicalisation helpers (np.delete) and the dtype matrix are bounded.", "0, 11/C14"),
+    "C15": ("other", "contracts (slice window = CPython's clamped window, position lookup, sub-range extraction) + bounded numpy stand-in",
+            "Proved: _get_slice hands exactly CPython's clamped window to _start_to_end for all 8 None/int kinds; _start_to_end returns a canonical sub-array with the dense content; _get_position. _step_subset, masks and start/stop windows are bounded.", "0, 11/C15"),
+    "C16": ("other", "contracts (operand order, boundaries kept, any/all/max) + bounded numpy stand-in",
+            "Proved: unary / scalar ufuncs keep boundaries and apply U in operand order, operands untouched; any/all/max equal the dense ones. Binary merge, sum/mean/histogram, concatenate are bounded.", "0, 11/C16"),
+    "C17": ("other", "dispatch contracts (operand order, lock-step row selection) + bounded numpy stand-in",
+            "Proved: ufunc operand order for scalar / column on either side in both classes; row selection indexes boundaries and values with the same selector. Everything else is bounded (as planned).", "0, 11/C17"),
+    "C18": ("other", "contracts on field-wise operations with abstract fields (k = 1..3 fields unrolled, all lengths and selectors symbolic) + bounded stand-in",
+            "Proved: equal-length check, __getitem__ for int / slice / index array / mask, concatenate of 2 and 3 objects, ==, astype by name, iteration, VarLenArray concatenate for 2 and 3 operands with all sizes symbolic. The number of fields / operands is concrete (unrolled), hence not claimed as proof.", "0, 11/C18"),
+    "C19": ("other", "re-generation of every geometry / indexing / reduction obligation under int32 (paired-word view model) + bounded differential run",
+            "Proved under both index widths with the same contracts: all C01/C02/C05/C06 families (1266 obligations). The C01-C09 stand-ins are run under both widths and compared (bounded).", "0, 11/C19"),
 }
 
 
